@@ -88,6 +88,9 @@ CONFIGS = {
     "twin5":  (["twin:a", "twin:b", "single"], [1], 5, 1, 1),
     # removal + unrelated write + collection (seeded change C01-gc-prunes-removal-epochs needs 6 operations)
     "rmgc":   (["single", "byKey:0"], [1], 6, 1, 0),
+    # chain byRef:x -> leaf:A -> A with an unrelated source S: verification in a later epoch, collection, another
+    # epoch (seeded change C02-gc-copies-time-verified needs: set A; call Q; set S; call Q; gc; set S'; call Q)
+    "gcts":   (["leaf:A", "byRef:x"], [0, 1], 7, 2, 0, ("A", "S")),
     # intern_ref: a MemoRef into another memoized value (the scenario of intern_ref's doc comment)
     "iref":   (["tup", "refMaker"], [0, 1, 2], 6, 1, 1, ("A",)),
     "iref3":  (["tup", "refMaker", "refUser"], [0, 1, 2], 6, 1, 1, ("A",)),
@@ -100,17 +103,20 @@ CONFIGS = {
 
 PLAN = {
     ("C01", "quick"): ["dyn", "trk", "memo", "rmgc"],
-    ("C02", "quick"): ["eqw", "dyn"],
+    ("C02", "quick"): ["eqw", "dyn", "gcts"],
     ("C03", "quick"): ["gc1", "gc2", "iref"],
     ("C04", "quick"): ["twin"],
     ("C01", "thorough"): ["dyn", "trk", "memo", "rmgc", "eqw5", "dyn6", "outer", "gc3", "iref3"],
-    ("C02", "thorough"): ["eqw5", "dyn", "trk", "dyn6", "outer", "gc1v", "iref3"],
-    ("C03", "thorough"): ["gc1v", "gc2w", "memo", "gc3", "dyn6", "outer", "iref", "iref3"],
+    ("C02", "thorough"): ["eqw5", "dyn", "trk", "dyn6", "outer", "gc1v", "iref3", "gcts"],
+    ("C03", "thorough"): ["gc1v", "gc2w", "memo", "gc3", "dyn6", "outer", "iref", "iref3", "gcts"],
     ("C04", "thorough"): ["twin5", "twin6"],
 }
-SIM = {  # simulation walks: (nodes, vals, depth, capacity, maxretain, num)
-    "quick": (ALL_NODES, [0, 1, 2], 30, 2, 2, 150),
-    "thorough": (ALL_NODES, [0, 1, 2], 60, 2, 2, 1500),
+SIM_NODESETS = [ALL_NODES,
+                ["leaf:A", "byRef:x", "single", "byKey:0"],
+                ["leaf:A", "leaf:B", "single", "top", "tsum", "outer"]]
+SIM = {  # simulation walks per node set: (vals, depth, capacity, maxretain, num)
+    "quick": ([0, 1, 2], 30, 2, 2, 120),
+    "thorough": ([0, 1, 2], 60, 2, 2, 800),
 }
 
 
@@ -338,24 +344,29 @@ def run(chk: vlib.Check):
 
     # ---- simulation: long random histories -----------------------------------------------------
     if prop != "C04":
-        nodes, vals, depth, capacity, maxretain, num = SIM[tier]
-        cfg = chk.work / "MC_sim.cfg"
-        cfg.write_text(cfg_text(nodes, vals, depth, capacity, maxretain, emit="final").replace("INVARIANT HoldsC01 HoldsC02 HoldsC03\n", ""))
-        r = vlib.tlc(SP / "MCPico.tla", cfg, workers=1, timeout=900, simulate=f"num={num}", depth=depth + 2, heap="4g", seed=chk.seed)
-        chk.add_tlc("simulate", r, count_states=False)
-        program = next((v for t, v in r.printed if t == "PROGRAM"), None)
-        walks = [v for t, v in r.printed if t == "REPLAY"]
-        if walks:
+        vals, depth, capacity, maxretain, num = SIM[tier]
+        total_walks = 0
+        for si, nodes in enumerate(SIM_NODESETS):
+            cfg = chk.work / f"MC_sim{si}.cfg"
+            cfg.write_text(cfg_text(nodes, vals, depth, capacity, maxretain, emit="final").replace("INVARIANT HoldsC01 HoldsC02 HoldsC03\n", ""))
+            r = vlib.tlc(SP / "MCPico.tla", cfg, workers=1, timeout=900, simulate=f"num={num}", depth=depth + 2, heap="4g", seed=chk.seed + si)
+            chk.add_tlc(f"simulate-{si}", r, count_states=False)
+            program = next((v for t, v in r.printed if t == "PROGRAM"), None)
+            walks = [v for t, v in r.printed if t == "REPLAY"]
+            if not walks:
+                continue
             obs = run_harness(binp, program, capacity, walks, chk)
             chk.cov["evaluations"] += len(walks)
+            total_walks += len(walks)
             for w in walks:
                 nontrivial.add(json.dumps(strip_obs(w["ops"]), sort_keys=True))
             traces_by_id = {i: o["ops"] for i, o in enumerate(obs)}
-            bads = validate_traces(chk, [(i, o["ops"]) for i, o in enumerate(obs)], capacity, "sim")
-            judge(bads, traces_by_id, capacity, program, nodes, "simulate")
-            chk.sample({"kind": "recorded random history (TLC -simulate walk -> real crate -> PicoTrace)", "history": obs[0]["ops"][:12]})
-            chk.cov["simulation_walks"] = len(walks)
-            chk.cov["simulation_depth"] = depth
+            bads = validate_traces(chk, [(i, o["ops"]) for i, o in enumerate(obs)], capacity, f"sim{si}")
+            judge(bads, traces_by_id, capacity, program, nodes, f"simulate-{si}")
+            if si == 0:
+                chk.sample({"kind": "recorded random history (TLC -simulate walk -> real crate -> PicoTrace)", "history": obs[0]["ops"][:12]})
+        chk.cov["simulation_walks"] = total_walks
+        chk.cov["simulation_depth"] = depth
 
     chk.cov["replays_from_tlc_transitions"] = total_replays
     chk.cov["replays_not_matching_layerB"] = mismatching
